@@ -9,7 +9,7 @@ ENTS = ["amp", "nbsp", "lt", "Sigma", "thetasym", "#32", "#x41", "#1234", "#x10F
 SCHEMES = ["http://", "https://", "ftp://", "mailto:", "//", "irc://", "news:", "gopher://"]
 
 ATOMS = ["{{", "}}", "{{{", "}}}", "[[", "]]", "[", "]", "|", "=", "==", "===", "\n", "\n\n", " ", "<", ">", "</", "/>",
-         "<!--", "-->", "&", ";", "&amp;", "&#x", "&#", "''", "'''", "'''''", "'", "#", "*", ";", ":", "----", "-----",
+         "<!--", "-->", "&", ";", "&amp;", "&apos;", "&check;", "&AMP;", "&#x", "&#", "''", "'''", "'''''", "'", "#", "*", ";", ":", "----", "-----",
          "{|", "|}", "|-", "||", "!!", "!", "|+", "http://", "https://a.b", "mailto:", "//", "://", "<ref>", "</ref>",
          "<br>", "<br/>", "<nowiki>", "</nowiki>", "<b>", "</b>", "<li>", "</br>", "\\", "\"", "a", "b", "foo", "x=y", "1",
          "{", "}", "\t", "_", ".", ",", "(", ")", "é", "ß", "\u0085", "\U0001d4b3", "<!-", "<pre>", "</pre>", "<hr>",
